@@ -356,70 +356,120 @@ Record DGood (s : st) : Prop := {
 
 Definition Good (cfg0 : tcfg) (s : st) : Prop := WGood cfg0 (fst s) /\ DGood s.
 
-(* I/O that leaves the driver state alone and the socket open/closed as it was *)
-Definition io_only (s s' : st) : Prop := snd s' = snd s /\ w_open (fst s') = w_open (fst s) /\ w_rands (fst s') = w_rands (fst s).
-Lemma io_only_refl s : io_only s s. Proof. repeat split. Qed.
+(* what CIPDriver._abandon_transport leaves: no socket, no session, not connected *)
+Definition abandoned (s : st) : Prop :=
+  d_sock (snd s) = false /\ d_session (snd s) = 0 /\ d_opened (snd s) = false /\ d_tconn (snd s) = false
+  /\ w_open (fst s) = false.
+
+(* I/O that leaves the driver state alone and the socket open/closed as it was — or abandons the transport *)
+Definition io_only (s s' : st) : Prop :=
+  (snd s' = snd s /\ w_open (fst s') = w_open (fst s)) \/ abandoned s'.
+(* ... and when the I/O succeeded it did the former *)
+Definition io_kept {A} (s s' : st) (r : res A) : Prop :=
+  forall a, r = Ok a -> snd s' = snd s /\ w_open (fst s') = w_open (fst s).
+Lemma io_only_refl s : io_only s s. Proof. left. split; reflexivity. Qed.
 Lemma io_only_trans a b c : io_only a b -> io_only b c -> io_only a c.
-Proof. intros (A1 & A2 & A3) (B1 & B2 & B3). repeat split; congruence. Qed.
+Proof.
+  intros Hab [[B1 B2] | Hc]; [| right; exact Hc].
+  destruct Hab as [[A1 A2] | (A1 & A2 & A3 & A4 & A5)]; [left; split; congruence |].
+  right. unfold abandoned. rewrite B1, B2. auto.
+Qed.
+Lemma abandoned_dgood s : abandoned s -> DGood s.
+Proof.
+  intros (A1 & A2 & A3 & A4 & A5). split; intros H; try assumption; try congruence; exfalso; apply H; exact A2.
+Qed.
 Lemma io_good cfg0 s s' : io_only s s' -> WGood cfg0 (fst s') -> Good cfg0 s -> Good cfg0 s'.
 Proof.
-  intros (A1 & A2 & A3) Hw [_ [D1 D2 D3]]. split; [exact Hw |]. split; rewrite ?A1, ?A2; assumption.
+  intros [[A1 A2] | Ha] Hw [_ [D1 D2 D3]]; (split; [exact Hw |]); [| apply abandoned_dgood; exact Ha].
+  split; rewrite ?A1, ?A2; assumption.
+Qed.
+
+Lemma abandon_good cfg0 flt (s : st) : WGood cfg0 (fst s) -> (d_sock (snd s) = false -> w_open (fst s) = false) ->
+  WGood cfg0 (fst (abandon_transport flt s)) /\ abandoned (abandon_transport flt s).
+Proof.
+  destruct s as [w d]. cbn [fst snd]. intros W Hs. unfold abandon_transport.
+  destruct (d_sock d) eqn:Ek; cbn [fst snd].
+  - pose proof (sock_close_w cfg0 flt w W) as (W1 & O1 & _). split; [exact W1 |].
+    unfold abandoned. cbn [fst snd reset_driver set_opened set_session set_tconn set_sock d_sock d_tconn d_session d_opened]. auto 10.
+  - split; [exact W |]. unfold abandoned.
+    cbn [fst snd reset_driver set_opened set_session set_tconn set_sock d_sock d_tconn d_session d_opened]. auto 10.
 Qed.
 
 Lemma tx_good cfg0 flt s fr : Good cfg0 s ->
-  let r := tx h flt s fr in Good cfg0 (fst r) /\ io_only s (fst r) /\ okres (snd r).
+  let r := tx h flt s fr in Good cfg0 (fst r) /\ io_only s (fst r) /\ okres (snd r) /\ io_kept s (fst r) (snd r).
 Proof.
-  intros G. cbv zeta. unfold tx. destruct s as [w d]. destruct (d_sock d).
+  intros G. cbv zeta. unfold tx. destruct s as [w d]. destruct (d_sock d) eqn:Ek.
   - pose proof (sock_send_w cfg0 flt w fr (proj1 G)) as (W1 & W2 & W3).
     destruct (sock_send h flt w fr) as [w' r]. cbn [fst snd] in *.
-    assert (io_only (w, d) (w', d)) as Hio by (repeat split; assumption).
-    split; [eapply io_good; eassumption |]. split; [exact Hio | apply okres_wrap].
-  - cbn [fst snd]. split; [exact G |]. split; [apply io_only_refl | reflexivity].
+    destruct r as [u | e].
+    + assert (io_only (w, d) (w', d)) as Hio by (left; split; [reflexivity | exact W2]).
+      cbn [fst snd]. split; [eapply io_good; eassumption |]. split; [exact Hio |]. split; [reflexivity |].
+      intros a _. split; [reflexivity | exact W2].
+    + destruct (abandon_good cfg0 flt (w', d) W1) as [Wa Ha]; [cbn [snd]; congruence |].
+      split; [split; [exact Wa | apply abandoned_dgood; exact Ha] |]. split; [right; exact Ha |].
+      split; [reflexivity | intros a H; discriminate].
+  - destruct (abandon_good cfg0 flt (w, d) (proj1 G)) as [Wa Ha]; [apply (dg_sock _ (proj2 G)) |].
+    split; [split; [exact Wa | apply abandoned_dgood; exact Ha] |]. split; [right; exact Ha |].
+    split; [reflexivity | intros a H; discriminate].
 Qed.
 
 Lemma rx_good cfg0 flt s : Good cfg0 s ->
-  let r := rx (S := S) flt s in Good cfg0 (fst r) /\ io_only s (fst r) /\ okres (snd r).
+  let r := rx (S := S) flt s in Good cfg0 (fst r) /\ io_only s (fst r) /\ okres (snd r) /\ io_kept s (fst r) (snd r).
 Proof.
-  intros G. cbv zeta. unfold rx. destruct s as [w d]. destruct (d_sock d).
-  - pose proof (sock_recv_w cfg0 flt w (proj1 G)) as (W1 & W2 & W3 & _).
+  intros G. cbv zeta. unfold rx. destruct s as [w d]. destruct (d_sock d) eqn:Ek.
+  - pose proof (sock_recv_w cfg0 flt w (proj1 G)) as (W1 & W2 & _).
     destruct (sock_recv flt w) as [w' r]. cbn [fst snd] in *.
-    assert (io_only (w, d) (w', d)) as Hio by (repeat split; assumption).
-    split; [eapply io_good; eassumption |]. split; [exact Hio | apply okres_wrap].
-  - cbn [fst snd]. split; [exact G |]. split; [apply io_only_refl | reflexivity].
+    destruct r as [raw | e].
+    + assert (io_only (w, d) (w', d)) as Hio by (left; split; [reflexivity | exact W2]).
+      cbn [fst snd]. split; [eapply io_good; eassumption |]. split; [exact Hio |]. split; [reflexivity |].
+      intros a _. split; [reflexivity | exact W2].
+    + destruct (abandon_good cfg0 flt (w', d) W1) as [Wa Ha]; [cbn [snd]; congruence |].
+      split; [split; [exact Wa | apply abandoned_dgood; exact Ha] |]. split; [right; exact Ha |].
+      split; [reflexivity | intros a H; discriminate].
+  - destruct (abandon_good cfg0 flt (w, d) (proj1 G)) as [Wa Ha]; [apply (dg_sock _ (proj2 G)) |].
+    split; [split; [exact Wa | apply abandoned_dgood; exact Ha] |]. split; [right; exact Ha |].
+    split; [reflexivity | intros a H; discriminate].
 Qed.
 
 Lemma drv_send_good cfg0 flt s fr nr : Good cfg0 s -> okres fr ->
-  let r := drv_send h flt s fr nr in Good cfg0 (fst r) /\ io_only s (fst r) /\ okres (snd r).
+  let r := drv_send h flt s fr nr in Good cfg0 (fst r) /\ io_only s (fst r) /\ okres (snd r) /\ io_kept s (fst r) (snd r).
 Proof.
   intros G Hfr. cbv zeta. unfold drv_send. destruct fr as [f | e].
-  2: { cbn [fst snd]. split; [exact G |]. split; [apply io_only_refl | exact Hfr]. }
-  pose proof (tx_good cfg0 flt s f G) as (G1 & I1 & R1). cbv zeta in *.
+  2: { cbn [fst snd]. split; [exact G |]. split; [apply io_only_refl |]. split; [exact Hfr | intros a H; discriminate]. }
+  pose proof (tx_good cfg0 flt s f G) as (G1 & I1 & R1 & K1). cbv zeta in *.
   destruct (tx h flt s f) as [s1 r1]. cbn [fst snd] in *.
-  destruct r1 as [u | e]; [| cbn [fst snd]; auto].
-  destruct nr; [cbn [fst snd]; split; [exact G1 |]; split; [exact I1 | reflexivity] |].
-  pose proof (rx_good cfg0 flt s1 G1) as (G2 & I2 & R2). cbv zeta in *.
+  destruct r1 as [u | e]; [| cbn [fst snd]; split; [exact G1 |]; split; [exact I1 |]; split; [exact R1 | intros a H; discriminate]].
+  destruct (K1 u eq_refl) as [K1a K1b].
+  destruct nr; [cbn [fst snd]; split; [exact G1 |]; split; [exact I1 |]; split; [reflexivity | intros a _; split; assumption] |].
+  pose proof (rx_good cfg0 flt s1 G1) as (G2 & I2 & R2 & K2). cbv zeta in *.
   destruct (rx flt s1) as [s2 r2]. cbn [fst snd] in *.
-  destruct r2 as [raw | e]; cbn [fst snd]; (split; [exact G2 |]); (split; [eapply io_only_trans; eassumption |]); auto;
-    reflexivity.
+  destruct r2 as [raw | e]; cbn [fst snd]; (split; [exact G2 |]); (split; [eapply io_only_trans; eassumption |]).
+  - split; [reflexivity |]. intros a _. destruct (K2 raw eq_refl) as [Ka Kb]. split; congruence.
+  - split; [exact R2 | intros a H; discriminate].
 Qed.
 
 (* the socket stays as it is; the driver keeps its socket, session and `connected`; a connection is
-   only ever claimed while a session is held *)
+   only ever claimed while a session is held — or the transport was abandoned *)
 Definition soft (s s' : st) : Prop :=
-  w_open (fst s') = w_open (fst s) /\ d_sock (snd s') = d_sock (snd s) /\ d_session (snd s') = d_session (snd s)
-  /\ d_opened (snd s') = d_opened (snd s)
-  /\ (d_tconn (snd s') = true -> d_tconn (snd s) = true \/ d_session (snd s) <> 0).
-Lemma soft_refl s : soft s s. Proof. repeat split; auto. Qed.
+  (w_open (fst s') = w_open (fst s) /\ d_sock (snd s') = d_sock (snd s) /\ d_session (snd s') = d_session (snd s)
+   /\ d_opened (snd s') = d_opened (snd s)
+   /\ (d_tconn (snd s') = true -> d_tconn (snd s) = true \/ d_session (snd s) <> 0))
+  \/ abandoned s'.
+Lemma soft_refl s : soft s s. Proof. left. repeat split; auto. Qed.
 Lemma soft_trans a b c : soft a b -> soft b c -> soft a c.
 Proof.
-  intros (A1 & A2 & A3 & A4 & A5) (B1 & B2 & B3 & B4 & B5). repeat split; try congruence.
-  intros H. destruct (B5 H) as [H1 | H1]; [apply A5; exact H1 | right; congruence].
+  intros Hab [(B1 & B2 & B3 & B4 & B5) | Hc]; [| right; exact Hc].
+  destruct Hab as [(A1 & A2 & A3 & A4 & A5) | (A1 & A2 & A3 & A4 & A5)].
+  - left. repeat split; try congruence.
+    intros H. destruct (B5 H) as [H1 | H1]; [apply A5; exact H1 | right; congruence].
+  - right. unfold abandoned. rewrite B1, B2, B3, B4. repeat split; auto.
+    destruct (d_tconn (snd c)) eqn:E; [| reflexivity]. destruct (B5 eq_refl) as [H1 | H1]; [congruence | exfalso; apply H1; exact A2].
 Qed.
 Lemma io_soft s s' : io_only s s' -> soft s s'.
-Proof. intros (A1 & A2 & A3). unfold soft. rewrite A1, A2. repeat split; auto. Qed.
+Proof. intros [[A1 A2] | Ha]; [| right; exact Ha]. left. rewrite A1, A2. repeat split; auto. Qed.
 Lemma soft_good cfg0 s s' : soft s s' -> WGood cfg0 (fst s') -> Good cfg0 s -> Good cfg0 s'.
 Proof.
-  intros (A1 & A2 & A3 & A4 & A5) Hw [_ [D1 D2 D3]]. split; [exact Hw |].
+  intros [(A1 & A2 & A3 & A4 & A5) | Ha] Hw [_ [D1 D2 D3]]; (split; [exact Hw |]); [| apply abandoned_dgood; exact Ha].
   split; rewrite ?A1, ?A2, ?A3, ?A4; try assumption.
   intros H. destruct (A5 H) as [H1 | H1]; [apply D2; exact H1 | exact H1].
 Qed.
@@ -427,19 +477,22 @@ Qed.
 Lemma soft_upd (s : st) (d' : dstate) :
   d_sock d' = d_sock (snd s) -> d_session d' = d_session (snd s) -> d_opened d' = d_opened (snd s) ->
   (d_tconn d' = true -> d_tconn (snd s) = true \/ d_session (snd s) <> 0) -> soft s (fst s, d').
-Proof. intros. repeat split; assumption. Qed.
+Proof. intros. left. repeat split; assumption. Qed.
 
 Definition spec_soft (cfg0 : tcfg) {A} (s : st) (r : st * res A) : Prop :=
   Good cfg0 (fst r) /\ soft s (fst r) /\ okres (snd r).
 
 Lemma generic_unconnected_good cfg0 flt s msg : Good cfg0 s ->
-  let r := generic_unconnected h flt s msg in Good cfg0 (fst r) /\ io_only s (fst r) /\ okres (snd r).
+  let r := generic_unconnected h flt s msg in
+  Good cfg0 (fst r) /\ io_only s (fst r) /\ okres (snd r) /\ io_kept s (fst r) (snd r).
 Proof.
   intros G. cbv zeta. unfold generic_unconnected.
-  pose proof (drv_send_good cfg0 flt s (rr_frame (d_session (snd s)) msg) false G (rr_frame_ok _ _)) as (G1 & I1 & R1).
+  pose proof (drv_send_good cfg0 flt s (rr_frame (d_session (snd s)) msg) false G (rr_frame_ok _ _)) as (G1 & I1 & R1 & K1).
   cbv zeta in *. destruct (drv_send h flt s (rr_frame (d_session (snd s)) msg) false) as [s1 r1]. cbn [fst snd] in *.
-  destruct r1 as [[raw |] | e]; cbn [fst snd]; (split; [exact G1 |]); (split; [exact I1 |]); auto;
-    try apply classify_ok; reflexivity.
+  destruct r1 as [[raw |] | e]; cbn [fst snd]; (split; [exact G1 |]); (split; [exact I1 |]).
+  - split; [apply classify_ok |]. intros a _. eapply K1. reflexivity.
+  - split; [reflexivity |]. intros a _. eapply K1. reflexivity.
+  - split; [exact R1 | intros a H; discriminate].
 Qed.
 
 Lemma fo_message_ok d : okres (fo_message d).
@@ -460,15 +513,15 @@ Proof.
   destruct (d_session d =? 0) eqn:Es; [cbn [fst snd]; split; [exact G |]; split; [apply soft_refl | reflexivity] |].
   pose proof (fo_message_ok d) as Hm. destruct (fo_message d) as [msg | e];
     [| cbn [fst snd]; split; [exact G |]; split; [apply soft_refl | exact Hm]].
-  pose proof (generic_unconnected_good cfg0 flt (w, d) msg G) as (G1 & I1 & R1). cbv zeta in *.
+  pose proof (generic_unconnected_good cfg0 flt (w, d) msg G) as (G1 & I1 & R1 & K1). cbv zeta in *.
   destruct (generic_unconnected h flt (w, d) msg) as [s1 r1]. cbn [fst snd] in *.
   destruct r1 as [[truthy value] | e]; [| cbn [fst snd]; split; [exact G1 |]; split; [apply io_soft; exact I1 | exact R1]].
   destruct truthy; cbn [fst snd].
   2: { split; [exact G1 |]. split; [apply io_soft; exact I1 | reflexivity]. }
   assert (soft (w, d) (fst s1, set_tconn true (set_cid (Some (firstn 4 value)) (snd s1)))) as Hs.
-  { destruct I1 as (I1 & I2 & I3). cbn [fst snd] in I1, I2. unfold soft.
-    cbn [fst snd set_tconn set_cid d_sock d_session d_opened d_tconn]. rewrite I1.
-    split; [exact I2 |]. repeat (split; [reflexivity |]). intros _. right. lia. }
+  { destruct (K1 _ eq_refl) as [I2 I3]. cbn [fst snd] in I2, I3. left.
+    cbn [fst snd set_tconn set_cid d_sock d_session d_opened d_tconn]. rewrite I2.
+    split; [exact I3 |]. repeat (split; [reflexivity |]). intros _. right. lia. }
   split; [| split; [exact Hs | reflexivity]].
   eapply soft_good; [exact Hs | apply G1 | exact G].
 Qed.
@@ -494,7 +547,7 @@ Lemma connected_request_seq_good cfg0 flt s sq msg : Good cfg0 s ->
   let r := connected_request_seq h flt s sq msg in Good cfg0 (fst r) /\ io_only s (fst r) /\ okres (snd r).
 Proof.
   intros G. cbv zeta. unfold connected_request_seq.
-  pose proof (drv_send_good cfg0 flt s (ud_frame (d_session (snd s)) (d_cid (snd s)) sq msg) false G (ud_frame_ok _ _ _ _)) as (G1 & I1 & R1).
+  pose proof (drv_send_good cfg0 flt s (ud_frame (d_session (snd s)) (d_cid (snd s)) sq msg) false G (ud_frame_ok _ _ _ _)) as (G1 & I1 & R1 & _).
   cbv zeta in *. destruct (drv_send h flt s _ false) as [s1 r1]. cbn [fst snd] in *.
   destruct r1 as [[raw |] | e]; cbn [fst snd]; (split; [exact G1 |]); (split; [exact I1 |]); auto;
     try apply classify_ok; reflexivity.
@@ -509,7 +562,7 @@ Proof.
   pose proof (draw_soft (w, d)) as Sd. cbn [fst snd] in Sd.
   destruct (draw d) as [sq d1]. cbn [snd] in Sd.
   assert (Good cfg0 (w, d1)) as G0 by (eapply soft_good; [exact Sd | apply G | exact G]).
-  pose proof (drv_send_good cfg0 flt (w, d1) (ud_frame (d_session d1) (d_cid d1) sq msg) false G0 (ud_frame_ok _ _ _ _)) as (G1 & I1 & R1).
+  pose proof (drv_send_good cfg0 flt (w, d1) (ud_frame (d_session d1) (d_cid d1) sq msg) false G0 (ud_frame_ok _ _ _ _)) as (G1 & I1 & R1 & _).
   cbv zeta in *. destruct (drv_send h flt (w, d1) _ false) as [s1 r1]. cbn [fst snd] in *.
   assert (soft (w, d) s1) as S1 by (eapply soft_trans; [exact Sd | apply io_soft; exact I1]).
   destruct r1 as [[raw |] | e]; cbn [fst snd]; (split; [exact G1 |]); (split; [exact S1 |]); auto;
@@ -554,24 +607,18 @@ Proof.
 Qed.
 
 Lemma drv_register_session_good cfg0 flt s : Good cfg0 s -> d_opened (snd s) = true ->
-  let r := drv_register_session h flt s in
-  Good cfg0 (fst r) /\ okres (snd r) /\ d_opened (snd (fst r)) = true /\ w_open (fst (fst r)) = w_open (fst s)
-  /\ d_sock (snd (fst r)) = d_sock (snd s).
+  let r := drv_register_session h flt s in Good cfg0 (fst r) /\ okres (snd r).
 Proof.
   intros G Ho. cbv zeta. unfold drv_register_session. destruct s as [w d]. cbn [snd] in Ho.
   destruct (negb (d_session d =? 0)) eqn:Es.
-  { cbn [fst snd]. split; [exact G |]. split; [reflexivity |]. split; [exact Ho |]. split; reflexivity. }
-  pose proof (drv_send_good cfg0 flt (w, d) (register_frame (d_session d)) false G (proj1 (simple_frames_ok _))) as (G1 & I1 & R1).
+  { cbn [fst snd]. split; [exact G | reflexivity]. }
+  pose proof (drv_send_good cfg0 flt (w, d) (register_frame (d_session d)) false G (proj1 (simple_frames_ok _))) as (G1 & I1 & R1 & K1).
   cbv zeta in *. destruct (drv_send h flt (w, d) (register_frame (d_session d)) false) as [s1 r1]. cbn [fst snd] in *.
-  destruct I1 as (I1 & I2 & I3). cbn [fst snd] in I1, I2.
-  assert (forall A (r : res A), okres r -> Good cfg0 s1 /\ okres r /\ d_opened (snd s1) = true /\ w_open (fst s1) = w_open w
-                                           /\ d_sock (snd s1) = d_sock d) as Hsame.
-  { intros A r Hr. rewrite I1. auto. }
-  destruct r1 as [[raw |] | e]; cbn [fst snd]; try (apply Hsame; first [exact R1 | reflexivity]).
-  destruct (register_valid raw); cbn [fst snd]; [| apply Hsame; reflexivity].
-  rewrite I1. cbn [set_session d_opened d_sock].
-  split; [| split; [reflexivity |]; split; [exact Ho |]; split; [exact I2 | reflexivity]].
-  destruct G1 as [W1 [D1 D2 D3]]. rewrite I1 in *. split; [exact W1 |].
+  destruct r1 as [[raw |] | e]; cbn [fst snd]; try (split; [exact G1 |]; first [exact R1 | reflexivity]).
+  destruct (register_valid raw); cbn [fst snd]; [| split; [exact G1 | reflexivity]].
+  split; [| reflexivity].
+  destruct (K1 _ eq_refl) as [I2 I3]. cbn [fst snd] in I2, I3.
+  destruct G1 as [W1 [D1 D2 D3]]. rewrite I2 in *. split; [exact W1 |].
   split; cbn [fst snd set_session d_sock d_tconn d_session d_opened]; auto.
   intros Ht. exfalso. apply (D2 Ht). lia.
 Qed.
@@ -592,7 +639,7 @@ Proof.
   assert (Good cfg0 (w3, d1)) as G3.
   { split; [exact W3 |]. split; cbn [fst snd d1 set_ids set_opened set_sock d_sock d_tconn d_session d_opened]; auto.
     intros; discriminate. }
-  pose proof (drv_register_session_good cfg0 flt (w3, d1) G3 eq_refl) as (G4 & R4 & _). cbv zeta in *.
+  pose proof (drv_register_session_good cfg0 flt (w3, d1) G3 eq_refl) as (G4 & R4). cbv zeta in *.
   destruct (drv_register_session h flt (w3, d1)) as [s2 r]. cbn [fst snd] in *.
   destruct r as [[z |] | e]; cbn [fst snd]; split; auto; reflexivity.
 Qed.
@@ -609,7 +656,7 @@ Proof.
   intros G. cbv zeta. unfold get_plc_info.
   destruct (plc_info_message (snd s) (d_micro (snd s))) as [msg | e];
     [| cbn [fst snd]; split; [exact G |]; split; [apply io_only_refl | reflexivity]].
-  pose proof (drv_send_good cfg0 flt s (rr_frame (d_session (snd s)) msg) false G (rr_frame_ok _ _)) as (G1 & I1 & R1).
+  pose proof (drv_send_good cfg0 flt s (rr_frame (d_session (snd s)) msg) false G (rr_frame_ok _ _)) as (G1 & I1 & R1 & _).
   cbv zeta in *. destruct (drv_send h flt s (rr_frame (d_session (snd s)) msg) false) as [s1 r1]. cbn [fst snd] in *.
   destruct r1 as [[raw |] | e]; cbn [fst snd]; (split; [exact G1 |]); (split; [exact I1 |]); try reflexivity.
   destruct (Identity.get_plc_info raw); reflexivity.
@@ -631,7 +678,7 @@ Qed.
 Lemma initialize_driver_good cfg0 flt s : Good cfg0 s -> spec_soft cfg0 s (initialize_driver h flt s).
 Proof.
   intros G. unfold spec_soft, initialize_driver.
-  pose proof (drv_send_good cfg0 flt s (list_identity_frame (d_session (snd s))) false G (proj2 (proj2 (simple_frames_ok _)))) as (G1 & I1 & R1).
+  pose proof (drv_send_good cfg0 flt s (list_identity_frame (d_session (snd s))) false G (proj2 (proj2 (simple_frames_ok _)))) as (G1 & I1 & R1 & _).
   cbv zeta in *. destruct (drv_send h flt s (list_identity_frame (d_session (snd s))) false) as [s1 r1]. cbn [fst snd] in *.
   destruct r1 as [reply | e]; [| cbn [fst snd]; split; [exact G1 |]; split; [apply io_soft; exact I1 | exact R1]].
   set (micro := match reply with Some raw => starts_with MICRO800_PREFIX (product_name_of raw) | None => false end).
@@ -673,7 +720,7 @@ Proof.
   destruct (d_session d =? 0); [cbn [fst snd]; split; [exact G |]; split; [apply soft_refl | reflexivity] |].
   pose proof (fc_message_ok d) as Hm. destruct (fc_message d) as [msg | e];
     [| cbn [fst snd]; split; [exact G |]; split; [apply soft_refl | exact Hm]].
-  pose proof (generic_unconnected_good cfg0 flt (w, d) msg G) as (G1 & I1 & R1). cbv zeta in *.
+  pose proof (generic_unconnected_good cfg0 flt (w, d) msg G) as (G1 & I1 & R1 & _). cbv zeta in *.
   destruct (generic_unconnected h flt (w, d) msg) as [s1 r1]. cbn [fst snd] in *.
   destruct r1 as [[truthy value] | e]; [| cbn [fst snd]; split; [exact G1 |]; split; [apply io_soft; exact I1 | exact R1]].
   destruct truthy; cbn [fst snd].
@@ -687,7 +734,7 @@ Lemma drv_un_register_session_good cfg0 flt s : Good cfg0 s ->
   let r := drv_un_register_session h flt s in Good cfg0 (fst r) /\ io_only s (fst r) /\ okres (snd r).
 Proof.
   intros G. cbv zeta. unfold drv_un_register_session.
-  pose proof (drv_send_good cfg0 flt s (unregister_frame (d_session (snd s))) true G (proj1 (proj2 (simple_frames_ok _)))) as (G1 & I1 & R1).
+  pose proof (drv_send_good cfg0 flt s (unregister_frame (d_session (snd s))) true G (proj1 (proj2 (simple_frames_ok _)))) as (G1 & I1 & R1 & _).
   cbv zeta in *. destruct (drv_send h flt s (unregister_frame (d_session (snd s))) true) as [s1 r1]. cbn [fst snd] in *.
   destruct r1; cbn [fst snd]; auto.
 Qed.
@@ -763,7 +810,7 @@ Proof.
   - pose proof (generic_connected_good cfg0 flt s m G) as (G1 & _ & R1).
     destruct (generic_connected h flt s m) as [s1 r1]. cbn [fst snd] in *.
     split; [exact G1 |]. split; [| discriminate]. apply lib_of_res; [exact R1 | intros [b v]; exact I].
-  - pose proof (generic_unconnected_good cfg0 flt s m G) as (G1 & _ & R1). cbv zeta in *.
+  - pose proof (generic_unconnected_good cfg0 flt s m G) as (G1 & _ & R1 & _). cbv zeta in *.
     destruct (generic_unconnected h flt s m) as [s1 r1]. cbn [fst snd] in *.
     split; [exact G1 |]. split; [| discriminate]. apply lib_of_res; [exact R1 | intros [b v]; exact I].
   - pose proof (connected_call_good cfg0 flt s items sa G) as (G1 & _ & R1).
